@@ -4,6 +4,8 @@
 -/
 import BlocV.Proto
 import BlocV.Model.Typing
+import BlocV.Model.Builtins
+import BlocV.Model.Fmt
 import BlocV.Spec.Arith
 
 open BlocV BlocV.Proto
@@ -44,6 +46,27 @@ def handle (words : List String) : String :=
       if !acceptBin op t1 t2 then "model=perr " ++ toString Gen.EXC_PARSE_TYPE_MISMATCH_S
       else "model=" ++ resStr (evalBin op a b)
     | _, _, _, _, _ => "bad-op"
+  | "bi" :: name :: vs =>
+    -- built-in call with already evaluated arguments (static types = value types)
+    match vs.mapM parseVal with
+    | some args =>
+      match acceptBuiltin name (args.map Val.type) with
+      | some (some code) => "model=perr " ++ toString code
+      | _ =>
+        match evalBuiltin Fmt.fmt16g name (args.map fun v => fun _ => Res.ok v) with
+        | some r => "model=" ++ resStr r
+        | none => "model=unmodelled"
+    | none => "bad-op"
+  | ["opseq", side, name, v1, vs] =>
+    -- the same node evaluated once per element of vs (a loop): results joined by ';'
+    match binOpOfName name, parseVal v1 with
+    | some op, some a =>
+      let rs := (vs.splitOn ",").map fun t =>
+        match parseVal t with
+        | some b => resStr (if side == "l" then evalBin op a b else evalBin op b a)
+        | none => "bad"
+      "model=" ++ ";".intercalate rs
+    | _, _ => "bad-op"
   | ["un", name, v1, st1] =>
     match unOpOfName name, parseVal v1, parseTyStr st1 with
     | some op, some a, some t1 =>
